@@ -75,6 +75,7 @@ def dispatch (j : Json) : Except String Json := do
   | "add_arg" => opAddArg j
   | "prec" => opPrec j
   | "prec_walrus" => opPrecWalrus j
+  | "prec_eval" => opPrecEval j
   | _ => .error s!"bad-op: unknown op {op}"
 
 end CM.Driver
